@@ -13,6 +13,8 @@ import time
 from multiprocessing import Pool
 
 ROOT = os.path.dirname(os.path.dirname(os.path.abspath(__file__)))
+# experiments may redirect replay files (parallel runs of one property): the default is /verif/replays
+REPLAYS = os.environ.get("VERIF_REPLAY_DIR") or os.path.join(ROOT, "replays")
 sys.path.insert(0, ROOT)
 from checker import jobs as J  # noqa: E402
 
@@ -118,7 +120,7 @@ def conclude(prop, tier, seed, results, t0, a):
     violations = []
     known_reported = []
     spurious = []
-    os.makedirs(os.path.join(ROOT, "replays"), exist_ok=True)
+    os.makedirs(REPLAYS, exist_ok=True)
     for key, bad in sorted(refuted.items()):
         # every refuted path of the obligation must be covered by a listed finding; a refutation
         # at another site or with another witness is reported as a violation
@@ -152,7 +154,7 @@ def conclude(prop, tier, seed, results, t0, a):
         from replay import concretize
         for oracle, params in BOUNDED.get(prop, []):
             key = hashlib.sha256((prop + oracle + json.dumps(params, sort_keys=True)).encode()).hexdigest()[:10]
-            path = os.path.join(ROOT, "replays", f"{prop}-bounded-{oracle}-{key}.json")
+            path = os.path.join(REPLAYS, f"{prop}-bounded-{oracle}-{key}.json")
             sc = {"property": prop, "obligation": f"bounded/{oracle}", "site": "native bounded search",
                   "config": concretize.DEFAULT_CFG, "oracle": oracle, "params": params,
                   "verdict": None, "observed": None,
